@@ -13,6 +13,10 @@ import Midgard.Model.TimeText
 import Midgard.Generated.TimeScaleTables
 import Midgard.Proofs.Calendar
 import Midgard.Proofs.TimeText
+import Midgard.Proofs.TimeDecimalYear
+import Midgard.Model.TimeFormats
+import Midgard.Generated.TimeFormatDispatch
+import Midgard.Generated.SourceExprsTimeFmt
 import Mathlib.Tactic.Linarith
 import Mathlib.Tactic.FieldSimp
 import Mathlib.Tactic.Ring
@@ -187,17 +191,20 @@ theorem ws_roundtrip (j : JD) (w : WeekSec) (h : wsFromJds j = some w) :
   split_ifs at h with hg
   simp only [Option.some.injEq] at h
   subst h
-  have hw := frac_range ((j.jd1 - (j.jd1 - (((j.jd1 + j.jd2 - 1 / 2).floor : Rat) + 1 / 2)) - jdGps0) / 7)
-  set jdI := j.jd1 - (j.jd1 - (((j.jd1 + j.jd2 - 1 / 2).floor : Rat) + 1 / 2)) with hjdI
+  -- the day part is an integer plus one half
+  obtain ⟨n, hn⟩ : ∃ n : Int, j.jd1 - jdDelta j = (n : Rat) + 1 / 2 := by
+    have := (jd_int_frac j).2.1
+    simpa only [jdInt] using this
+  set jdI := j.jd1 - jdDelta j with hjdI
+  have hw := frac_range ((jdI - jdGps0) / 7)
   set W : Rat := (((jdI - jdGps0) / 7).floor : Rat) with hW
   have hd := frac_range (jdI - jdGps0 - W * 7)
   refine ⟨?_, ?_, ?_⟩
   · rw [ws_inst]; simp only [JD.inst]
-    -- jdI - gps0 - 7W is an integer: its floor is itself
     have hint : (((jdI - jdGps0 - W * 7).floor : Int) : Rat) = jdI - jdGps0 - W * 7 := by
       have : jdI - jdGps0 - W * 7
-          = (((j.jd1 + j.jd2 - 1 / 2).floor - 2444244 - ((jdI - jdGps0) / 7).floor * 7 : Int) : Rat) := by
-        simp only [hjdI, hW, jdGps0]; push_cast; ring
+          = ((n - 2444244 - ((jdI - jdGps0) / 7).floor * 7 : Int) : Rat) := by
+        rw [hW]; simp only [jdGps0]; push_cast; linarith [hn]
       rw [this, Rat.floor_intCast]
     rw [hint]; simp only [hjdI]; ring
   · have : (0 : Rat) ≤ jdI - jdGps0 - W * 7 := by linarith [hw.1]
@@ -210,7 +217,6 @@ theorem ws_roundtrip (j : JD) (w : WeekSec) (h : wsFromJds j = some w) :
     have := floor_le_self (jdI - jdGps0 - W * 7)
     show (((jdI - jdGps0 - W * 7).floor : Int) : Rat) < 7
     linarith
-
 theorem gs_inst (v : Rat) : (gsToJds v).inst = jdGps0 + v / 86400 := by
   simp only [gsToJds, JD.inst]; ring
 
@@ -237,6 +243,270 @@ theorem jy_roundtrip (j : JD) : (jyToJds (jyFromJds j)).inst = j.inst := by
 theorem jy_normalised (v : Rat) : 0 ≤ (jyToJds v).jd2 ∧ (jyToJds v).jd2 < 1 := by
   have h := frac_range ((v - 2000) * julianYear)
   simpa only [jyToJds] using h
+
+
+/-! ### Decimal year (variable year length; in UTC the leap seconds are part of the year) -/
+
+section DecimalYear
+open Midgard.TimeScale
+open Midgard.Generated.TimeScale (taiutc consts)
+
+/-- **Year length, every scale but UTC**: the calendar length, 366 days in leap years (every 4th year except the
+centuries not divisible by 400), otherwise 365 — for every year (the code's special case 9999 ↦ 365 agrees). -/
+theorem year2days_calendar (tbl : List Row) (tol : Rat) (y : Int) (s : Scale) (hs : s ≠ .utc) :
+    year2days tbl tol y s = (yearLen y : Rat) ∧ yearLen y = if isLeap y then 366 else 365 := by
+  refine ⟨?_, yearLen_eq y⟩
+  unfold year2days
+  split_ifs with h9
+  · subst h9; rw [yearLen_eq]; decide +kernel
+  · cases s <;> first | exact absurd rfl hs | (simp only [yearStart_succ]; ring)
+
+/-- **Year length in UTC**: the calendar length plus the growth of TAI−UTC over the year (the leap seconds) -/
+theorem year2days_utc (tbl : List Row) (tol : Rat) (y : Int) (h9 : y ≠ 9999) :
+    year2days tbl tol y .utc = (yearLen y : Rat)
+      + (deltaUtc tbl tol ⟨yearStartJd1 (y + 1), 0⟩ - deltaUtc tbl tol ⟨yearStartJd1 y, 0⟩) := by
+  unfold year2days
+  simp only [h9, if_false, utc2tai, yearStart_succ]
+  ring
+
+/-- what a decimal year `v ≥ 0` denotes: start of year `⌊v⌋` plus the fraction of that year's length -/
+theorem dy_inst (tbl : List Row) (tol : Rat) (s : Scale) (v : Rat) (hv : 0 ≤ v) :
+    (dyToJds tbl tol s v).inst = yearStartJd1 v.floor + (v - (v.floor : Rat)) * year2days tbl tol v.floor s := by
+  simp only [dyToJds, JD.inst, truncRat_nonneg v hv]; ring
+
+theorem dyFromJds_eq (tbl : List Row) (tol : Rat) (s : Scale) (j : JD) :
+    dyFromJds tbl tol s j = (dyYear j : Rat) + (j.inst - yearStartJd1 (dyYear j)) / year2days tbl tol (dyYear j) s := by
+  simp only [dyFromJds, dyYear, JD.inst]; ring
+
+/-- **Round trip of the decimal year, exact**: for every scale and every epoch that lies in the year it is counted in
+(`0 ≤ days < year length`, year ≥ 0), reading `.decimalyear` and constructing again gives exactly the same instant. -/
+theorem dy_roundtrip (tbl : List Row) (tol : Rat) (s : Scale) (j : JD)
+    (hY : 0 ≤ dyYear j) (h0 : yearStartJd1 (dyYear j) ≤ j.inst)
+    (h1 : j.inst < yearStartJd1 (dyYear j) + year2days tbl tol (dyYear j) s) :
+    (dyToJds tbl tol s (dyFromJds tbl tol s j)).inst = j.inst := by
+  set Y := dyYear j with hYd
+  set L := year2days tbl tol Y s with hL
+  have hLpos : 0 < L := by linarith
+  set x := (j.inst - yearStartJd1 Y) / L with hx
+  have hx0 : 0 ≤ x := div_nonneg (by linarith) (le_of_lt hLpos)
+  have hx1 : x < 1 := by rw [hx, div_lt_one hLpos]; linarith
+  have hv : dyFromJds tbl tol s j = (Y : Rat) + x := dyFromJds_eq tbl tol s j
+  have hYr : (0 : Rat) ≤ (Y : Rat) := by exact_mod_cast hY
+  have hfl : ((Y : Rat) + x).floor = Y := floor_add_frac Y x hx0 hx1
+  rw [hv, dy_inst tbl tol s _ (by linarith), hfl, ← hL]
+  have : x * L = j.inst - yearStartJd1 Y := by rw [hx]; field_simp
+  linarith
+
+/-- a datetime lies in its calendar year -/
+theorem dt_year_window (dt : DateTime) :
+    yearStartJd1 (fieldsOf dt).year ≤ (dtToJds dt).inst ∧ (dtToJds dt).inst < yearStartJd1 ((fieldsOf dt).year + 1) := by
+  have hw := year_window (dt / usPerDay)
+  have e0 := Int.emod_def dt usPerDay
+  have r0 := Int.emod_nonneg dt (show usPerDay ≠ 0 by decide)
+  have r1 := Int.emod_lt_of_pos dt (show (0 : Int) < usPerDay by decide)
+  have hy : (fieldsOf dt).year = (civilFromDays (dt / usPerDay)).1 := rfl
+  rw [hy, dt_inst]
+  simp only [yearStartJd1]
+  set n := dt / usPerDay with hn
+  have hU : (0 : Rat) < (usPerDay : Rat) := by norm_num [usPerDay]
+  have a : (n : Rat) ≤ (dt : Rat) / (usPerDay : Rat) := by
+    rw [le_div_iff₀ hU]; exact_mod_cast (by nlinarith [Int.mul_comm usPerDay n] : n * usPerDay ≤ dt)
+  have b : (dt : Rat) / (usPerDay : Rat) < (n : Rat) + 1 := by
+    rw [div_lt_iff₀ hU]; exact_mod_cast (by nlinarith [Int.mul_comm usPerDay n] : dt < (n + 1) * usPerDay)
+  have c1 : ((daysFromCivil (civilFromDays n).1 1 1 : Int) : Rat) ≤ (n : Rat) := by exact_mod_cast hw.1
+  have c2 : (n : Rat) + 1 ≤ ((daysFromCivil ((civilFromDays n).1 + 1) 1 1 : Int) : Rat) := by exact_mod_cast hw.2
+  constructor <;> linarith
+
+/-- every epoch is within 1 µs of the year `.decimalyear` counts it in (the two datetime roundings) -/
+theorem dy_window (j : JD) :
+    yearStartJd1 (dyYear j) - 1 / (usPerDay : Rat) ≤ j.inst ∧
+    j.inst < yearStartJd1 (dyYear j) + (yearLen (dyYear j) : Rat) + 1 / (usPerDay : Rat) := by
+  have h := dt_year_window (dtFromJds j)
+  have r := dt_roundtrip j
+  rw [abs_le] at r
+  rw [yearStart_succ] at h
+  simp only [dyYear]
+  constructor <;> linarith [h.1, h.2, r.1, r.2]
+
+/-- an epoch that *is* a datetime (built from one) is counted in its own year: the window of `dy_roundtrip` holds -/
+theorem dy_window_dt (dt : DateTime) :
+    dyYear (dtToJds dt) = (fieldsOf dt).year ∧ yearStartJd1 (fieldsOf dt).year ≤ (dtToJds dt).inst ∧
+    (dtToJds dt).inst < yearStartJd1 (fieldsOf dt).year + (yearLen (fieldsOf dt).year : Rat) := by
+  have h := dt_year_window dt
+  rw [yearStart_succ] at h
+  refine ⟨by simp only [dyYear, dt_readback], h.1, h.2⟩
+
+/-- **Round trip of the decimal year for every epoch** (scales other than UTC, year ≥ 1): reading `.decimalyear` from any
+`(jd1, jd2)` and constructing again moves the instant by at most 1/365 µs — and by nothing unless the microsecond
+rounding of the datetime that supplies the year crossed a year boundary (`dy_roundtrip`).  The single-float value of
+the format quantises to ≈ 40 µs·(year/2000); that is floating point, measured by the check. -/
+theorem dy_roundtrip_any (tbl : List Row) (tol : Rat) (s : Scale) (hs : s ≠ .utc) (j : JD) (hY : 1 ≤ dyYear j) :
+    |(dyToJds tbl tol s (dyFromJds tbl tol s j)).inst - j.inst| ≤ 1 / (usPerDay : Rat) / 365 := by
+  have hw := dy_window j
+  set Y := dyYear j with hYd
+  have hu : (1 : Rat) / (usPerDay : Rat) = 1 / 86400000000 := by norm_num [usPerDay]
+  rw [hu] at hw ⊢
+  have hL := (year2days_calendar tbl tol Y s hs).1
+  have hYr : (1 : Rat) ≤ (Y : Rat) := by exact_mod_cast hY
+  by_cases hlo : yearStartJd1 Y ≤ j.inst
+  · by_cases hhi : j.inst < yearStartJd1 Y + (yearLen Y : Rat)
+    · -- inside the year: exact
+      rw [dy_roundtrip tbl tol s j (by omega) hlo (by rw [← hYd, hL]; exact hhi)]
+      simp only [sub_self, abs_zero]; norm_num
+    · -- rounded down across the end of the year
+      rw [not_lt] at hhi
+      have hL1 := (year2days_calendar tbl tol (Y + 1) s hs).1
+      set d := j.inst - yearStartJd1 Y with hd
+      have hv : dyFromJds tbl tol s j = ((Y + 1 : Int) : Rat) + (d - (yearLen Y : Rat)) / (yearLen Y : Rat) := by
+        rw [dyFromJds_eq, ← hYd, hL]
+        rcases yearLen_cases Y with h | h <;> rw [h] <;> push_cast <;> field_simp <;> ring
+      have hx0 : 0 ≤ (d - (yearLen Y : Rat)) / (yearLen Y : Rat) := by
+        rcases yearLen_cases Y with h | h <;> rw [h] at hhi ⊢ <;> apply div_nonneg <;> linarith
+      have hx1 : (d - (yearLen Y : Rat)) / (yearLen Y : Rat) < 1 := by
+        rcases yearLen_cases Y with h | h <;> rw [h] at hw ⊢ <;> rw [div_lt_one (by norm_num)] <;> linarith [hw.2]
+      have hfl := floor_add_frac (Y + 1) _ hx0 hx1
+      rw [hv, dy_inst tbl tol s _ (by push_cast; linarith), hfl, hL1, yearStart_succ]
+      rw [abs_le]
+      rcases yearLen_cases Y with h | h <;> rcases yearLen_cases (Y + 1) with h' | h' <;>
+        rw [h] at hhi hw ⊢ <;> rw [h'] <;> constructor <;> linarith [hw.2]
+  · -- rounded up across the start of the year
+    rw [not_le] at hlo
+    have hL1 := (year2days_calendar tbl tol (Y - 1) s hs).1
+    have hys : yearStartJd1 Y = yearStartJd1 (Y - 1) + (yearLen (Y - 1) : Rat) := by
+      rw [← yearStart_succ]; congr 1; omega
+    set d := j.inst - yearStartJd1 Y with hd
+    have hv : dyFromJds tbl tol s j = ((Y - 1 : Int) : Rat) + (1 + d / (yearLen Y : Rat)) := by
+      rw [dyFromJds_eq, ← hYd, hL]; push_cast; ring
+    have hx0 : 0 ≤ 1 + d / (yearLen Y : Rat) := by
+      have : -1 ≤ d / (yearLen Y : Rat) := by
+        rcases yearLen_cases Y with h | h <;> rw [h] <;> rw [le_div_iff₀ (by norm_num)] <;> linarith [hw.1]
+      linarith
+    have hx1 : 1 + d / (yearLen Y : Rat) < 1 := by
+      have : d / (yearLen Y : Rat) < 0 := by
+        rcases yearLen_cases Y with h | h <;> rw [h] <;> apply div_neg_of_neg_of_pos <;> linarith
+      linarith
+    have hfl := floor_add_frac (Y - 1) _ hx0 hx1
+    rw [hv, dy_inst tbl tol s _ (by push_cast; linarith), hfl, hL1]
+    rw [abs_le]
+    rcases yearLen_cases Y with h | h <;> rcases yearLen_cases (Y - 1) with h' | h' <;>
+      rw [h'] at hys ⊢ <;> rw [h] <;> constructor <;> linarith [hw.1]
+
+theorem yearStart_mono_late (y : Int) (h : 2017 ≤ y) : yearStartJd1 2017 ≤ yearStartJd1 y := by
+  have : daysFromCivil 2017 1 1 ≤ daysFromCivil y 1 1 := by
+    simp only [daysFromCivil, dfc_eq, yearBase]; norm_num; omega
+  simp only [yearStartJd1]
+  have : ((daysFromCivil 2017 1 1 : Int) : Rat) ≤ ((daysFromCivil y 1 1 : Int) : Rat) := by exact_mod_cast this
+  linarith
+
+theorem yearStart_mono_early (y : Int) (h : y ≤ 1961) : yearStartJd1 y ≤ yearStartJd1 1961 := by
+  have : daysFromCivil y 1 1 ≤ daysFromCivil 1961 1 1 := by
+    simp only [daysFromCivil, dfc_eq, yearBase]; norm_num; omega
+  simp only [yearStartJd1]
+  have : ((daysFromCivil y 1 1 : Int) : Rat) ≤ ((daysFromCivil 1961 1 1 : Int) : Rat) := by exact_mod_cast this
+  linarith
+
+/-- from the start of the last table row on, TAI−UTC is that row's constant -/
+theorem deltaUtc_late (j : JD) (h : yearStartJd1 2017 ≤ j.inst) :
+    deltaUtc taiutc consts.tol j = deltaUtc taiutc consts.tol ⟨yearStartJd1 2017, 0⟩ := by
+  have hall : ∀ r ∈ taiutc, r.start ≤ yearStartJd1 2017 ∧ 0 ≤ consts.tol := by decide +kernel
+  have cnt : ∀ k : JD, yearStartJd1 2017 ≤ k.inst → startedUtc taiutc consts.tol k = taiutc.length := by
+    intro k hk
+    unfold startedUtc
+    rw [List.countP_eq_length]
+    intro r hr
+    have := hall r hr
+    simp only [decide_eq_true_eq, JD.inst] at hk ⊢
+    linarith [this.1, this.2]
+  unfold deltaUtc
+  rw [cnt j h, cnt ⟨yearStartJd1 2017, 0⟩ (by simp [JD.inst])]
+  have hr : (rowAt taiutc taiutc.length).rate = 0 := by decide +kernel
+  simp only [Row.deltaAt, hr, mul_zero]
+
+/-- up to the start of the first table row, TAI−UTC is extrapolated along the first row -/
+theorem deltaUtc_early (j : JD) (h : j.inst ≤ yearStartJd1 1961) :
+    rowAt taiutc (startedUtc taiutc consts.tol j) = taiutc.headD default := by
+  have hall : ∀ r ∈ taiutc.tail, yearStartJd1 1961 + consts.tol < r.start := by decide +kernel
+  have cnt : startedUtc taiutc consts.tol j ≤ 1 := by
+    unfold startedUtc
+    have e : taiutc = taiutc.headD default :: taiutc.tail := by decide +kernel
+    rw [e, List.countP_cons]
+    have : taiutc.tail.countP (fun r => decide (0 ≤ (j.jd1 - r.start) + j.jd2 + consts.tol)) = 0 := by
+      rw [List.countP_eq_zero]
+      intro r hr
+      have := hall r hr
+      simp only [decide_eq_true_eq, JD.inst, not_le] at h ⊢
+      linarith
+    rw [this]; split_ifs <;> omega
+  have : startedUtc taiutc consts.tol j = 0 ∨ startedUtc taiutc consts.tol j = 1 := by omega
+  rcases this with h0 | h0 <;> rw [h0] <;> decide +kernel
+
+/-- **Year length in UTC is never shorter than the calendar year** (table of the tree under test): the leap seconds and
+the pre-1972 drift only lengthen a year — so every epoch of a calendar year has its decimal year inside that year. -/
+theorem year2days_utc_ge (y : Int) : (yearLen y : Rat) ≤ year2days taiutc consts.tol y .utc := by
+  by_cases h9 : y = 9999
+  · subst h9; unfold year2days; simp only [if_true]; rw [yearLen_eq]; decide +kernel
+  rw [year2days_utc _ _ y h9]
+  suffices 0 ≤ deltaUtc taiutc consts.tol ⟨yearStartJd1 (y + 1), 0⟩ - deltaUtc taiutc consts.tol ⟨yearStartJd1 y, 0⟩ by linarith
+  by_cases hl : 2017 ≤ y
+  · rw [deltaUtc_late ⟨yearStartJd1 (y + 1), 0⟩ (by simpa [JD.inst] using yearStart_mono_late (y + 1) (by omega)),
+      deltaUtc_late ⟨yearStartJd1 y, 0⟩ (by simpa [JD.inst] using yearStart_mono_late y hl)]
+    linarith
+  by_cases he : y ≤ 1960
+  · unfold deltaUtc
+    rw [deltaUtc_early ⟨yearStartJd1 (y + 1), 0⟩ (by simpa [JD.inst] using yearStart_mono_early (y + 1) (by omega)),
+      deltaUtc_early ⟨yearStartJd1 y, 0⟩ (by simpa [JD.inst] using yearStart_mono_early y (by omega))]
+    have hr : (0 : Rat) ≤ (taiutc.headD default).rate := by decide +kernel
+    have hL := yearLen_cases y
+    simp only [Row.deltaAt, mjdOf, yearStart_succ, secPerDay]
+    have : (0 : Rat) ≤ (yearLen y : Rat) := by rcases hL with h | h <;> rw [h] <;> norm_num
+    have key : ((taiutc.headD default).offset + (yearStartJd1 y + (yearLen y : Rat) - TimeScale.mjd0 + 0 - (taiutc.headD default).refMjd) * (taiutc.headD default).rate) / 86400
+        - ((taiutc.headD default).offset + (yearStartJd1 y - TimeScale.mjd0 + 0 - (taiutc.headD default).refMjd) * (taiutc.headD default).rate) / 86400
+        = (yearLen y : Rat) * (taiutc.headD default).rate / 86400 := by ring
+    rw [key]; positivity
+  · -- the years of the table: 1961 … 2016, evaluated
+    have hfin : ∀ k ∈ List.range 56, 0 ≤ deltaUtc taiutc consts.tol ⟨yearStartJd1 ((1961 + k : Nat) + 1), 0⟩
+        - deltaUtc taiutc consts.tol ⟨yearStartJd1 (1961 + k : Nat), 0⟩ := by decide +kernel
+    obtain ⟨k, hk, rfl⟩ : ∃ k : Nat, k < 56 ∧ y = ((1961 + k : Nat) : Int) := ⟨(y - 1961).toNat, by omega, by omega⟩
+    exact hfin k (List.mem_range.mpr hk)
+
+
+/-- **Round trip of the decimal year in every scale, UTC with its leap seconds included** (TAI−UTC table of the tree under
+test): an epoch inside the calendar year it is counted in comes back exactly. -/
+theorem dy_roundtrip_table (s : Scale) (j : JD) (hY : 0 ≤ dyYear j) (h0 : yearStartJd1 (dyYear j) ≤ j.inst)
+    (h1 : j.inst < yearStartJd1 (dyYear j) + (yearLen (dyYear j) : Rat)) :
+    (dyToJds taiutc consts.tol s (dyFromJds taiutc consts.tol s j)).inst = j.inst := by
+  apply dy_roundtrip _ _ s j hY h0
+  by_cases hs : s = .utc
+  · subst hs; linarith [year2days_utc_ge (dyYear j)]
+  · rw [(year2days_calendar _ _ _ s hs).1]; exact h1
+
+/-- … in particular every epoch that is a datetime (years 0 …), in every scale -/
+theorem dy_roundtrip_dt (s : Scale) (dt : DateTime) (hY : 0 ≤ (fieldsOf dt).year) :
+    (dyToJds taiutc consts.tol s (dyFromJds taiutc consts.tol s (dtToJds dt))).inst = (dtToJds dt).inst := by
+  obtain ⟨e, a, b⟩ := dy_window_dt dt
+  exact dy_roundtrip_table s _ (by rw [e]; exact hY) (by rw [e]; exact a) (by rw [e]; exact b)
+
+/-- the constructor normalises: for a decimal year `v ≥ 0` the day part is a whole number (not a half-integer: `int(jd)`)
+and `0 ≤ jd2 < 1` -/
+theorem dy_normalised (tbl : List Row) (tol : Rat) (s : Scale) (v : Rat)
+    (h : 0 ≤ yearStartJd1 (truncRat v) + (v - (truncRat v : Rat)) * year2days tbl tol (truncRat v) s) :
+    (∃ k : Int, (dyToJds tbl tol s v).jd1 = (k : Rat)) ∧ 0 ≤ (dyToJds tbl tol s v).jd2 ∧ (dyToJds tbl tol s v).jd2 < 1 := by
+  simp only [dyToJds]
+  set jd := yearStartJd1 (truncRat v) + (v - (truncRat v : Rat)) * year2days tbl tol (truncRat v) s with hjd
+  rw [truncRat_nonneg jd h]
+  have r := frac_range jd
+  exact ⟨⟨jd.floor, rfl⟩, r.1, r.2⟩
+
+-- non-vacuity: 2000-01-01 is counted in 2000, inside its year; leap-second years are a second longer in UTC
+example : dyYear (dtToJds 0) = 2000 ∧ yearStartJd1 2000 ≤ (dtToJds 0).inst ∧
+    (dtToJds 0).inst < yearStartJd1 2000 + (yearLen 2000 : Rat) := by decide +kernel
+example : year2days taiutc consts.tol 2016 .utc = 366 + 1 / 86400 ∧ year2days taiutc consts.tol 1972 .utc = 366 + 2 / 86400 ∧
+    year2days taiutc consts.tol 2017 .utc = 365 ∧ year2days taiutc consts.tol 2016 .tai = 366 ∧
+    year2days taiutc consts.tol 1900 .tt = 365 ∧ year2days taiutc consts.tol 2000 .gps = 366 := by decide +kernel
+example : dyToJdsG taiutc consts.tol .utc (1 / 2) = none ∧ dyToJdsG taiutc consts.tol .utc (20001 / 2) = none ∧
+    (dyToJdsG taiutc consts.tol .utc (4001 / 2)).isSome := by decide +kernel
+
+end DecimalYear
 
 /-! ### Text formats: what is printed is what is parsed -/
 
@@ -391,6 +661,241 @@ digits and `strptime`'s `%Y` refuses the text (midgard then raises `ValueError`)
 theorem isot_short_year (dt : DateTime) (h : (fieldsOf dt).year < 1000) : parse? .isot (render .isot dt) = none :=
   parse_render_isot_short_year dt h
 
+section AllFormats
+open Midgard.TimeScale
+open Midgard.Generated.TimeScale (taiutc consts)
+set_option linter.unnecessarySeqFocus false
+
+/-! ### All formats at once: one round-trip theorem, and `same_instant` for every pair of formats -/
+
+/-- resolution of a format in days, over ℚ (the float rounding of the single-float forms comes on top and is measured) -/
+def res : Fmt → Rat
+  | .jd | .mjd | .gps_ws | .gps_seconds | .jyear => 0
+  | .datetime => 1 / (usPerDay : Rat)
+  | .decimalyear => 1 / (usPerDay : Rat) / 365
+  | .text f => textRes f + 1 / (usPerDay : Rat)
+
+/-- the epochs a format is valid for in a scale: the GPS formats need the gps scale and an epoch on or after 1980-01-06, a
+text format a year its pattern can carry (`InDomain`), the decimal year a year 2 … 9998 — and in UTC, where a year that
+ends in a leap second is longer than its calendar days, an epoch inside the calendar year it is counted in (all epochs
+but those whose microsecond rounding crosses a year boundary) -/
+def Valid (F : Fmt) (s : Scale) (j : JD) : Prop :=
+  match F with
+  | .gps_ws | .gps_seconds => s = .gps ∧ jdGps0 ≤ j.inst
+  | .decimalyear => 2 ≤ dyYear j ∧ dyYear j ≤ 9998 ∧
+      (s = .utc → yearStartJd1 (dyYear j) ≤ j.inst ∧ j.inst < yearStartJd1 (dyYear j) + (yearLen (dyYear j) : Rat))
+  | .text f => InDomain f (dtFromJds j)
+  | _ => True
+
+theorem year2days_ge (s : Scale) (y : Int) : (yearLen y : Rat) ≤ year2days taiutc consts.tol y s := by
+  by_cases hs : s = .utc
+  · subst hs; exact year2days_utc_ge y
+  · rw [(year2days_calendar _ _ y s hs).1]
+
+/-- the decimal year of an epoch is within its year, give or take the microsecond rounding -/
+theorem dy_value_range (s : Scale) (j : JD) :
+    (dyYear j : Rat) - 1 < dyFromJds taiutc consts.tol s j ∧ dyFromJds taiutc consts.tol s j < (dyYear j : Rat) + 2 := by
+  have hw := dy_window j
+  have hu : (1 : Rat) / (usPerDay : Rat) = 1 / 86400000000 := by norm_num [usPerDay]
+  rw [hu] at hw
+  have hge := year2days_ge s (dyYear j)
+  have hL : (365 : Rat) ≤ (yearLen (dyYear j) : Rat) := by
+    rcases yearLen_cases (dyYear j) with h | h <;> rw [h] <;> norm_num
+  rw [dyFromJds_eq]
+  set L := year2days taiutc consts.tol (dyYear j) s
+  set d := j.inst - yearStartJd1 (dyYear j) with hd
+  have hLpos : 0 < L := by linarith
+  have a : -1 < d / L := by rw [lt_div_iff₀ hLpos]; linarith [hw.1]
+  have b : d / L < 2 := by rw [div_lt_iff₀ hLpos]; linarith [hw.2]
+  constructor <;> linarith
+
+/-- **Round trip of every format**: reading format `F` from any epoch valid for it and constructing a Time from the value
+succeeds and moves the instant by at most the resolution of `F` (0 for jd, mjd, gps_ws, gps_seconds, jyear; 1 µs for
+datetime and the microsecond texts; 1 s + 1 µs for `:sssss`; 1 day + 1 µs for date; 1/365 µs for decimalyear). -/
+theorem roundtrip_all (F : Fmt) (s : Scale) (j : JD) (h : Valid F s j) :
+    ∃ j', denote taiutc consts.tol F s j = some j' ∧ |j'.inst - j.inst| ≤ res F := by
+  cases F with
+  | jd => exact ⟨_, rfl, by rw [jd_roundtrip]; simp [res]⟩
+  | mjd => exact ⟨_, rfl, by rw [mjd_roundtrip]; simp [res]⟩
+  | jyear => exact ⟨_, rfl, by rw [jy_roundtrip]; simp [res]⟩
+  | datetime => exact ⟨_, rfl, dt_roundtrip j⟩
+  | gps_ws =>
+    obtain ⟨hs, hg⟩ := h
+    obtain ⟨w, hw⟩ := Option.isSome_iff_exists.mp ((gps_guard j).1.mpr hg)
+    refine ⟨wsToJds w.week w.seconds, by simp [denote, fromJdsF, toJdsF, hs, hw], ?_⟩
+    rw [(ws_roundtrip j w hw).1]; simp [res]
+  | gps_seconds =>
+    obtain ⟨hs, hg⟩ := h
+    obtain ⟨x, hx⟩ := Option.isSome_iff_exists.mp ((gps_guard j).2.mpr hg)
+    refine ⟨gsToJds x, by simp [denote, fromJdsF, toJdsF, hs, hx], ?_⟩
+    rw [gs_roundtrip j x hx]; simp [res]
+  | decimalyear =>
+    obtain ⟨h2, h9, hu⟩ := h
+    have hr := dy_value_range s j
+    have h2r : (2 : Rat) ≤ (dyYear j : Rat) := by exact_mod_cast h2
+    have h9r : (dyYear j : Rat) ≤ 9998 := by exact_mod_cast h9
+    have hv0 : 0 ≤ dyFromJds taiutc consts.tol s j := by linarith [hr.1]
+    have g1 : 1 ≤ truncRat (dyFromJds taiutc consts.tol s j) := by
+      rw [truncRat_nonneg _ hv0]; exact Rat.le_floor_iff.mpr (by push_cast; linarith [hr.1])
+    have g2 : truncRat (dyFromJds taiutc consts.tol s j) ≤ 9999 := by
+      rw [truncRat_nonneg _ hv0]
+      have : (dyFromJds taiutc consts.tol s j).floor < 10000 := Rat.floor_lt_iff.mpr (by push_cast; linarith [hr.2])
+      omega
+    refine ⟨dyToJds taiutc consts.tol s (dyFromJds taiutc consts.tol s j), by simp [denote, fromJdsF, toJdsF, dyToJdsG, g1, g2], ?_⟩
+    by_cases hs : s = .utc
+    · obtain ⟨a, b⟩ := hu hs
+      rw [dy_roundtrip_table s j (by omega) a b]; simp only [sub_self, abs_zero, res]; norm_num [usPerDay]
+    · exact dy_roundtrip_any _ _ s hs j (by omega)
+  | text f =>
+    obtain ⟨j', e, hb⟩ := text_roundtrip f j h
+    exact ⟨j', by simpa [denote, fromJdsF, toJdsF, textToJds] using e, hb⟩
+
+/-- **All formats of one Time denote one and the same instant**: for every pair of formats valid for the scale and the
+epoch, the Times constructed from the two values differ by at most the sum of the two resolutions. -/
+theorem same_instant (F G : Fmt) (s : Scale) (j : JD) (hF : Valid F s j) (hG : Valid G s j) :
+    ∃ a b, denote taiutc consts.tol F s j = some a ∧ denote taiutc consts.tol G s j = some b ∧
+      |a.inst - b.inst| ≤ res F + res G := by
+  obtain ⟨a, ea, ha⟩ := roundtrip_all F s j hF
+  obtain ⟨b, eb, hb⟩ := roundtrip_all G s j hG
+  refine ⟨a, b, ea, eb, ?_⟩
+  rw [abs_le] at ha hb ⊢
+  constructor <;> linarith [ha.1, ha.2, hb.1, hb.2]
+
+-- every format has valid epochs: 2000-01-01 12:00 in the gps scale is valid for all thirteen
+example : ∀ F ∈ allFmts, Valid F .gps (dtToJds 43200000000) := by
+  have hy : dyYear (dtToJds 43200000000) = 2000 := by decide +kernel
+  have hd : dtFromJds (dtToJds 43200000000) = 43200000000 := dt_readback _
+  intro F hF
+  simp only [allFmts, List.mem_cons, List.mem_nil_iff, or_false] at hF
+  rcases hF with rfl | rfl | rfl | rfl | rfl | rfl | rfl | rfl | rfl | rfl | rfl | rfl | rfl <;>
+    simp only [Valid, InDomain, hy, hd] <;> first | trivial | decide +kernel
+/-! ### Scalar, length-1 and length-n inputs behave identically element by element -/
+
+theorem allSome_eq_some {β : Type} (l : List (Option β)) (r : List β) : allSome l = some r ↔ l = r.map some := by
+  induction l generalizing r with
+  | nil => cases r <;> simp [allSome]
+  | cons a t ih =>
+    cases a with
+    | none => cases r <;> simp [allSome]
+    | some x =>
+      cases r with
+      | nil => simp [allSome]
+      | cons y r' =>
+        simp only [allSome, Option.map_eq_some_iff, List.map_cons, List.cons.injEq, Option.some.injEq]
+        constructor
+        · rintro ⟨r'', h1, rfl, rfl⟩; exact ⟨rfl, (ih r'').mp h1⟩
+        · rintro ⟨rfl, h2⟩; exact ⟨r', (ih r').mpr h2, rfl, rfl⟩
+
+/-- **`scalar_eq_array`**: constructing from a list (or an ndarray) of `n` values succeeds with the epochs `js` exactly when
+there are `n` of them and the `i`-th is what the *scalar* constructor makes of the `i`-th value — for every format, every
+scale, every `n` (in particular `n = 1`: a length-1 input is the scalar input in brackets); list and ndarray inputs are
+treated alike.  (Stated for the per-element functions the three dispatch idioms of `_to_jds` reach, see
+`source_dispatch`.) -/
+theorem scalar_eq_array (F : Fmt) (s : Scale) (xs : List Val) (js : List JD) :
+    (toJdsShaped taiutc consts.tol F s (.list xs) = toJdsShaped taiutc consts.tol F s (.ndarray xs)) ∧
+    (toJdsShaped taiutc consts.tol F s (.list xs) = some (.many js) ↔
+      xs.length = js.length ∧ ∀ (i : Nat) (h1 : i < xs.length) (h2 : i < js.length),
+        toJdsShaped taiutc consts.tol F s (.scalar xs[i]) = some (.one js[i])) := by
+  refine ⟨rfl, ?_⟩
+  simp only [toJdsShaped, applyShape, Option.map_eq_some_iff, JdsOut.many.injEq, JdsOut.one.injEq, exists_eq_right]
+  rw [allSome_eq_some]
+  constructor
+  · intro h
+    have hl : xs.length = js.length := by simpa using congrArg List.length h
+    refine ⟨hl, fun i h1 h2 => ?_⟩
+    have := congrArg (fun l => l[i]?) h
+    simpa [h1, h2] using this
+  · rintro ⟨hl, h⟩
+    apply List.ext_getElem (by simpa using hl)
+    intro i h1 h2
+    simp only [List.length_map] at h1 h2
+    simpa using h i h1 h2
+
+/-- a sequence is refused exactly when one of its elements is refused as a scalar -/
+theorem array_refused_iff (F : Fmt) (s : Scale) (xs : List Val) :
+    toJdsShaped taiutc consts.tol F s (.list xs) = none ↔ ∃ x ∈ xs, toJdsShaped taiutc consts.tol F s (.scalar x) = none := by
+  simp only [toJdsShaped, applyShape, Option.map_eq_none_iff]
+  induction xs with
+  | nil => simp [allSome]
+  | cons a t ih =>
+    cases h : toJdsF taiutc consts.tol F s a with
+    | none => simp [allSome, h]
+    | some y => simp [allSome, h, ih]
+
+/-- **gps_ws, every input layout gives the same epochs**: the two-part input of any length `n` (also `n = 3`) is taken
+element by element; an `(n, 3)` array of stored rows (`n ≥ 1`) gives what the two-part input of its first two columns
+gives; one stored row `(3,)` gives what the scalar two-part input gives. -/
+theorem ws_layouts (ws : List (Rat × Rat)) (d w sec : Rat) :
+    wsToJdsIn .gps (.pair (.ndarray ws)) = some (.many (ws.map fun p => wsToJds p.1 p.2)) ∧
+    (ws ≠ [] → wsToJdsIn .gps (.arr2 3 (ws.map fun p => [p.1, p.2, d])) = wsToJdsIn .gps (.pair (.ndarray ws))) ∧
+    wsToJdsIn .gps (.arr1 [w, sec, d]) = wsToJdsIn .gps (.pair (.scalar (w, sec))) ∧
+    wsToJdsIn .gps (.pair (.scalar (w, sec))) = some (.one (wsToJds w sec)) := by
+  have key : ∀ l : List (Rat × Rat), allSome (l.map fun p => some (wsToJds p.1 p.2)) = some (l.map fun p => wsToJds p.1 p.2) := by
+    intro l; rw [allSome_eq_some]; simp
+  refine ⟨?_, ?_, ?_, ?_⟩
+  · simp [wsToJdsIn, wsSelect, applyShape, key]
+  · intro hne
+    have hl : ws.length ≠ 0 := by simpa using hne
+    simp [wsToJdsIn, wsSelect, hl, Function.comp_def]
+  · simp [wsToJdsIn, wsSelect]
+  · simp [wsToJdsIn, wsSelect, applyShape]
+
+/-! ### The dispatch and the decimal year are the source -/
+
+open Midgard.Generated in
+/-- the idiom by which every `_to_jds` / `_from_jds` reaches its per-element code, and the branch chain of
+`TimeGPSWeekSec._to_jds`, as read off the source on this run, are the ones the model mirrors -/
+theorem source_dispatch : TimeFormatDispatch.dispatchTable = expectedDispatch ∧ TimeFormatDispatch.wsChain = expectedWsChain := by
+  decide +kernel
+
+theorem trunc_src (q : Rat) : Midgard.Generated.SrcTimeFmt.HasTrunc.trunc q = (truncRat q : Rat) := by
+  simp only [Midgard.Generated.SrcTimeFmt.HasTrunc.trunc, truncRat]; split_ifs <;> rfl
+
+open Midgard.Generated in
+/-- `TimeDecimalYear._dy2jd` / `_jd2dy`, statement by statement, given the start of the year and its length -/
+theorem source_decimalyear (tbl : List Row) (tol : Rat) (s : Scale) (v : Rat) (j : JD) :
+    (let r := dyToJds tbl tol s v
+     SrcTimeFmt.dy2jdSrc v (yearStartJd1 (truncRat v)) (year2days tbl tol (truncRat v) s) = ((truncRat v : Rat), (r.jd1, r.jd2))) ∧
+    SrcTimeFmt.jd2dySrc (dyYear j : Rat) (yearStartJd1 (dyYear j)) (year2days tbl tol (dyYear j) s) j.jd1 j.jd2
+      = dyFromJds tbl tol s j := by
+  refine ⟨?_, ?_⟩
+  · simp only [SrcTimeFmt.dy2jdSrc, dyToJds, trunc_src]
+  · simp only [SrcTimeFmt.jd2dySrc, dyFromJds, dyYear]
+
+
+
+/-! ### Leap seconds and the text formats (what the code does)
+
+`datetime` has no second 60: a text `…23:59:60` is refused by every text pattern in every scale (`mkDateTime` below is the
+`datetime(...)` call every `strptime` branch of the model ends in; the yday branch has the same test inline); no text
+that is printed shows a second 60 (`fields_range`: the second of a datetime is 0…59); `:sssss` = 86400 is accepted and is
+00:00:00 of the next day.  The UTC day that ends in a leap second therefore has no text for its last second: the UTC
+label of a TAI epoch inside the leap second is the first second of the next day, printed a second time one second
+later (examples below, compared with the real code by the check on every leap-second day since 1972). -/
+
+/-- second 60 (or more) never makes a datetime; a second-of-day of exactly 86400 is the next midnight -/
+theorem leap_second_text (y m d h mi us sec day : Int) (hs : 60 ≤ sec) :
+    mkDateTime y m d h mi sec us = none ∧
+    day * usPerDay + roundHalfEven ((86400 : Rat) * (usPerSec : Rat)) = (day + 1) * usPerDay := by
+  constructor
+  · unfold mkDateTime
+    rw [if_neg]; omega
+  · have : ((86400 : Rat) * (usPerSec : Rat)) = ((86400000000 : Int) : Rat) := by norm_num [usPerSec]
+    rw [this, rhe_int]; simp only [usPerDay]; ring
+
+example : parse? .isot "2016-12-31T23:59:60".toList = none ∧ parse? .iso "2016-12-31 23:59:60.5".toList = none ∧
+    parse? .yday "2016:366:23:59:60".toList = none ∧
+    parse? .yyyyddd "2016:366:86400".toList = some (ofFields ⟨2017, 1, 1, 0, 0, 0, 0⟩) ∧
+    parse? .yyddd "16:366:86400".toList = parse? .yyddd "17:001:00000".toList := by decide +kernel
+-- TAI 2017-01-01 00:00:36.5 is inside the leap second (UTC 2016-12-31 23:59:60.5); its UTC label is 00:00:00.5 of
+-- 2017-01-01, and so is the label of the TAI epoch one second later
+example : textFromJds .isot (tai2utc taiutc consts.tol ⟨2457754 + 1 / 2, (73 / 2) / 86400⟩) = "2017-01-01T00:00:00.500000".toList ∧
+    textFromJds .isot (tai2utc taiutc consts.tol ⟨2457754 + 1 / 2, (75 / 2) / 86400⟩) = "2017-01-01T00:00:00.500000".toList ∧
+    textFromJds .isot (tai2utc taiutc consts.tol ⟨2457754 + 1 / 2, (71 / 2) / 86400⟩) = "2016-12-31T23:59:59.500000".toList := by
+  decide +kernel
+
+end AllFormats
+
 /-! ### Constants of the format classes -/
 
 theorem constants : jd2000dt = 2451544 + 1 / 2 ∧ mjd0 = 2400000 + 1 / 2 ∧ jdGps0 = 2444244 + 1 / 2 ∧
@@ -423,9 +928,10 @@ example : render .isot 0 = "2000-01-01T00:00:00.000000".toList ∧
 tree under test: `_to_jds` / `_from_jds` of the numeric formats jd, mjd, gps_ws, gps_seconds, jyear (guards resolved to
 the accepting branch) and `_jd_delta` / `jd_int` / `jd_frac`, statement by statement.  The theorems of this section say
 that the model definitions the other theorems of this file are about are *equal* (over ℚ) to those regenerated
-definitions, with the unit factors the code reads from `Unit` given their defining values.  Hand-modelled and tied by
-the correspondence only: datetime / decimalyear / the text formats (CPython's datetime, strftime/strptime), the
-input-shape dispatch of `TimeGPSWeekSec._to_jds`, and the guards that raise. -/
+definitions, with the unit factors the code reads from `Unit` given their defining values.  `_dy2jd` / `_jd2dy` of decimalyear and the
+input-shape dispatch (idiom per class, branch chain of `TimeGPSWeekSec._to_jds`) come from `translator/extract_timefmt.py`
+(`source_decimalyear`, `source_dispatch` above).  Hand-modelled and tied by the correspondence only: datetime, the text
+formats (CPython's datetime, strftime/strptime), `_year2days` (Time construction and scale conversion), the guards that raise. -/
 section Source
 open Midgard.Generated
 set_option linter.unusedTactic false
@@ -465,7 +971,7 @@ theorem source_gps_formats (week sec v : Rat) (j : JD) (h : ¬ j.jd1 + j.jd2 < j
     gsFromJds j = some (SrcTime.gsFromJdsSrc j.jd1 j.jd2 86400 jdGps0) := by
   refine ⟨?_, ?_, ?_, ?_⟩
   · src_tie_t [wsToJds, SrcTime.wsToJdsSrc]
-  · simp only [wsFromJds, h, if_false]; src_tie_t [SrcTime.wsFromJdsSrc]
+  · simp only [wsFromJds, h, if_false]; src_tie_t [SrcTime.wsFromJdsSrc, jdDelta]
   · src_tie_t [gsToJds, SrcTime.gsToJdsSrc]
   · simp only [gsFromJds, h, if_false]; src_tie_t [SrcTime.gsFromJdsSrc]
 
@@ -520,3 +1026,32 @@ end Midgard.Props.C02
 #print axioms Midgard.Props.C02.source_jd_int_frac
 #print axioms Midgard.Props.C02.source_gps_formats
 #print axioms Midgard.Props.C02.source_jyear
+#print axioms Midgard.Props.C02.year2days_calendar
+#print axioms Midgard.Props.C02.year2days_utc
+#print axioms Midgard.Props.C02.dy_inst
+#print axioms Midgard.Props.C02.dyFromJds_eq
+#print axioms Midgard.Props.C02.dy_roundtrip
+#print axioms Midgard.Props.C02.dt_year_window
+#print axioms Midgard.Props.C02.dy_window
+#print axioms Midgard.Props.C02.dy_window_dt
+#print axioms Midgard.Props.C02.dy_roundtrip_any
+#print axioms Midgard.Props.C02.yearStart_mono_late
+#print axioms Midgard.Props.C02.yearStart_mono_early
+#print axioms Midgard.Props.C02.deltaUtc_late
+#print axioms Midgard.Props.C02.deltaUtc_early
+#print axioms Midgard.Props.C02.year2days_utc_ge
+#print axioms Midgard.Props.C02.dy_roundtrip_table
+#print axioms Midgard.Props.C02.dy_roundtrip_dt
+#print axioms Midgard.Props.C02.dy_normalised
+#print axioms Midgard.Props.C02.year2days_ge
+#print axioms Midgard.Props.C02.dy_value_range
+#print axioms Midgard.Props.C02.roundtrip_all
+#print axioms Midgard.Props.C02.same_instant
+#print axioms Midgard.Props.C02.allSome_eq_some
+#print axioms Midgard.Props.C02.scalar_eq_array
+#print axioms Midgard.Props.C02.array_refused_iff
+#print axioms Midgard.Props.C02.ws_layouts
+#print axioms Midgard.Props.C02.source_dispatch
+#print axioms Midgard.Props.C02.trunc_src
+#print axioms Midgard.Props.C02.source_decimalyear
+#print axioms Midgard.Props.C02.leap_second_text
